@@ -3717,3 +3717,14 @@ Proof.
     exists (set_b_pending (b_pending b3 - 1) b3). repeat split.
     unfold upd. cbn [blocks set_blocks]. apply (find_bid_upd_same i _ b3); [exact F3|exact Eb].
 Qed.
+
+(* ---- C15 (internal accounting): a block's pending_conns covers every connect promised to it
+        (scheduled, in flight, completed but unprocessed, or behind a transfer) *)
+Lemma p_pending_covers mx s b : 0 <= mx -> reach mx s -> In b s.(blocks) ->
+  0 <= npipe b.(b_id) s <= b.(b_pending).
+Proof.
+  intros Hm R Hb. destruct (reach_Inv _ _ Hm R) as (_ & O & _).
+  pose proof (own_pend _ _ _ _ O (b_id b)) as P. rewrite zoccB_nil in P.
+  rewrite (sumZ_at_unique (b_id b) b_pending _ b (own_ids _ _ _ _ O) Hb eq_refl) in P.
+  pose proof (npipe_nonneg (b_id b) s). lia.
+Qed.
